@@ -157,6 +157,8 @@ def snapshot(store):
             out[k] = digest(describe(v))
         elif hasattr(v, 'param_names'):
             out[k] = digest([[float(np.ravel(getattr(v, n).value)[0]) for n in v.param_names], [bool(getattr(v, n).fixed) for n in v.param_names]])
+        elif isinstance(v, np.ma.MaskedArray):      # values, mask and the fill value (reading it here also materialises it, as user code may have)
+            out[k] = digest([v, repr(v.fill_value), str(v.dtype)])
         else:
             try:
                 out[k] = digest(v)
